@@ -16,6 +16,11 @@ EXTENDS Integers, Sequences, FiniteSets, TLC
 Max2(a, b) == IF a > b THEN a ELSE b
 Mid(l) == l[2] + (l[3] - l[2]) \div 2
 SigVal(c, q) == 1000 * c + q
+\* positions without coverage (NaN in an in-memory array, a missing interval in a bigWig) read as 0.
+\* c.gaps: tuple of <<chromosome, lo, hi>> half-open intervals (absent in the enumerated model: no gaps)
+GapsOf(c) == IF "gaps" \in DOMAIN c THEN c.gaps ELSE <<>>
+InGap(c, ch, q) == \E k \in DOMAIN GapsOf(c) : GapsOf(c)[k][1] = ch /\ GapsOf(c)[k][2] <= q /\ q < GapsOf(c)[k][3]
+SigAt(c, ch, q) == IF InGap(c, ch, q) THEN 0 ELSE SigVal(ch, q)
 \* round-robin interleave of the sets, skipping exhausted ones
 MaxLen(sets) == IF sets = <<>> THEN 0 ELSE LET S == { Len(sets[k]) : k \in DOMAIN sets } IN CHOOSE m \in S : \A v \in S : v <= m
 RECURSIVE Interleave(_, _, _)
@@ -38,9 +43,9 @@ ChromLen(c, l) == Len(c.genome[l[1] + 1])
 \* the region that must lie inside the chromosome: everything that is going to be read
 Lo(c, l) == IF c.sig THEN (IF SigLo(c, l) < SeqLo(c, l) THEN SigLo(c, l) ELSE SeqLo(c, l)) ELSE SeqLo(c, l)
 Hi(c, l) == IF c.sig THEN Max2(SigHi(c, l), SeqHi(c, l)) ELSE SeqHi(c, l)
-RECURSIVE SumRange(_, _, _)
-SumRange(ch, lo, hi) == IF lo >= hi THEN 0 ELSE SigVal(ch, lo) + SumRange(ch, lo + 1, hi)
-Counts(c, l) == SumRange(l[1], SigLo(c, l), SigHi(c, l))
+RECURSIVE SumRange(_, _, _, _)
+SumRange(c, ch, lo, hi) == IF lo >= hi THEN 0 ELSE SigAt(c, ch, lo) + SumRange(c, ch, lo + 1, hi)
+Counts(c, l) == SumRange(c, l[1], SigLo(c, l), SigHi(c, l))
 Zone(c, l) ==
     IF c.allowed # <<>> /\ ~(\E k \in DOMAIN c.allowed : c.allowed[k] = l[1]) THEN "omit"
     ELSE IF Lo(c, l) < 0 \/ Hi(c, l) > ChromLen(c, l) THEN "omit"                      \* crosses an end
@@ -48,8 +53,8 @@ Zone(c, l) ==
     ELSE IF Mid(l) - HalfW(c) - c.jit <= 0 \/ Mid(l) + HalfW(c) + c.jit + 1 >= ChromLen(c, l) THEN "either"   \* touches an end
     ELSE "keep"
 SeqOf(c, l) == SubSeq(c.genome[l[1] + 1], SeqLo(c, l) + 1, SeqHi(c, l))
-SigOf(c, l) == [q \in 1..(SigHi(c, l) - SigLo(c, l)) |-> SigVal(l[1], SigLo(c, l) + q - 1)]
-InSigOf(c, l) == [q \in 1..(SeqHi(c, l) - SeqLo(c, l)) |-> SigVal(l[1], SeqLo(c, l) + q - 1)]
+SigOf(c, l) == [q \in 1..(SigHi(c, l) - SigLo(c, l)) |-> SigAt(c, l[1], SigLo(c, l) + q - 1)]
+InSigOf(c, l) == [q \in 1..(SeqHi(c, l) - SeqLo(c, l)) |-> SigAt(c, l[1], SeqLo(c, l) + q - 1)]
 
 \* r = [seqs, sigs, insigs]: is it what a correct extract_loci may return?
 RECURSIVE Match(_, _, _, _)
